@@ -31,6 +31,12 @@ COMPOSITES = [
 ]
 
 
+def is_required_keys_loop(node):
+    """the loop of StructuredTypeUnmarshaller.__call__ that checks a TypedDict's required keys: identified by what it iterates over"""
+    import ast as _ast
+    return isinstance(node, _ast.For) and "__required_keys__" in _ast.unparse(node.iter)
+
+
 def make_interp():
     I = rw.install_serdes(rw.make_interp())
 
@@ -45,15 +51,16 @@ def make_interp():
         if "KW" not in _ROLE:
             _m, _c, _node = I.src.find_def(f"{UN}.StructuredTypeUnmarshaller.__call__")
             # the keyword-argument dict: the local assigned from the dict comprehension (by role, not by name)
-            _ROLE["KW"] = next((a.targets[0].id for a in _ast.walk(_node) if isinstance(a, _ast.Assign) and len(a.targets) == 1
-                                and isinstance(a.targets[0], _ast.Name) and isinstance(a.value, _ast.DictComp)), "kwargs")
+            # ... i.e. the name unpacked into the constructor call `self.t(**<name>)`
+            _ROLE["KW"] = next((k.value.id for c in _ast.walk(_node) if isinstance(c, _ast.Call) for k in c.keywords
+                                if k.arg is None and isinstance(k.value, _ast.Name)), "kwargs")
         kw = env.lookup(_ROLE["KW"])
         slf = env.lookup("self")
         t = to_val(slf.fields["t"])
         n = kw.n if not isinstance(kw.n, int) else z3.IntVal(kw.n)
 
         return [Q([IntS], lambda j: z3.Implies(z3.And(j >= 0, j < k), kw.has_f(rw.required_key(t, j))), name="required-present")]
-    I.loop_specs[(f"{UN}.StructuredTypeUnmarshaller.__call__", 0)] = LoopSpec("required-keys", lambda I, p, e, k: None, inv)
+    I.loop_specs[(f"{UN}.StructuredTypeUnmarshaller.__call__", is_required_keys_loop)] = LoopSpec("required-keys", lambda I, p, e, k: None, inv)
     return I
 
 
